@@ -64,8 +64,9 @@ def exAtoms : Atoms AB :=
       | .a => .comparison (.field 0 []) .isTrue
       | .b => .comparison (.field 1 []) .isTrue }
 
-theorem idStop_noUnary (c0 : Char) (h0 : c0 ≠ 'n') (h1 : c0 ≠ '!') (rest : Input) :
-    lexEnum unaryOps (c0 :: rest) = none := by
+theorem idStop_noUnary (env : PEnv) (c0 : Char) (h0 : c0 ≠ 'n') (h1 : c0 ≠ '!') (rest : Input) :
+    lexUnary env (c0 :: rest) = none := by
+  apply lexUnary_none_of_enum
   simp [lexEnum, unaryOps, expect, stripPrefix, h0, h1]
 
 theorem idStop_noQuant (c0 : Char) (h0 : c0 ≠ 'a') (rest : Input) :
@@ -93,7 +94,7 @@ theorem exAtoms_good (tight : Bool) : ∀ x : AB, GoodAtom exEnv exAtoms tight x
       { parses := fun n rest h =>
           boolField_parses exEnv (lowerOf exEnv n) 'a' 0 (by decide) (by decide) (by decide) rest
             (stop_idStop h)
-        noUnary := fun rest _ => idStop_noUnary 'a' (by decide) (by decide) rest
+        noUnary := fun rest _ => idStop_noUnary _ 'a' (by decide) (by decide) rest
         noQuant := fun rest h => a_noQuant rest h
         notCombining := rfl }
   | b =>
@@ -101,14 +102,14 @@ theorem exAtoms_good (tight : Bool) : ∀ x : AB, GoodAtom exEnv exAtoms tight x
       { parses := fun n rest h =>
           boolField_parses exEnv (lowerOf exEnv n) 'b' 1 (by decide) (by decide) (by decide) rest
             (stop_idStop h)
-        noUnary := fun rest _ => idStop_noUnary 'b' (by decide) (by decide) rest
+        noUnary := fun rest _ => idStop_noUnary _ 'b' (by decide) (by decide) rest
         noQuant := fun rest _ => idStop_noQuant 'b' (by decide) rest
         notCombining := rfl }
 
 /-! ### concrete renderings of one skeleton -/
 
-theorem Renders.cast {α : Type} {A : Atoms α} {tight : Bool} {sk : Sk α} {s s' : Input}
-    (h : Renders A tight sk s) (e : s = s') : Renders A tight sk s' := e ▸ h
+theorem Renders.cast {α : Type} {env : PEnv} {A : Atoms α} {tight : Bool} {sk : Sk α}
+    {s s' : Input} (h : Renders env A tight sk s) (e : s = s') : Renders env A tight sk s' := e ▸ h
 
 /-- the skeleton of `not a and (b or a) xor b` -/
 def exSk : Sk AB :=
@@ -120,9 +121,9 @@ def exText₂ : Input := "!a&&(\n b||a )^^b".toList
 def exText₃ : Input := "nota  and( b ||a)\r\n  xorb".toList
 
 /-- word aliases, single spaces -/
-theorem exRenders₁ : Renders exAtoms true exSk exText₁ :=
+theorem exRenders₁ : Renders exEnv exAtoms true exSk exText₁ :=
   Renders.cast
-    (.chain (.not "not" [' '] (by decide) rfl (.atom AB.a))
+    (.chain (.not "not" [' '] (by decide) rfl rfl (.atom AB.a))
       (.cons (o := .and) [' '] "and" [' '] rfl (by decide) rfl rfl
         (.paren [] [] rfl rfl
           (.chain (.atom AB.b)
@@ -131,9 +132,9 @@ theorem exRenders₁ : Renders exAtoms true exSk exText₁ :=
     rfl
 
 /-- symbolic aliases, no space around them (needs `tight`), a newline inside the parentheses -/
-theorem exRenders₂ : Renders exAtoms true exSk exText₂ :=
+theorem exRenders₂ : Renders exEnv exAtoms true exSk exText₂ :=
   Renders.cast
-    (.chain (.not "!" [] (by decide) rfl (.atom AB.a))
+    (.chain (.not "!" [] (by decide) rfl (by decide) (.atom AB.a))
       (.cons (o := .and) [] "&&" [] rfl (by decide) rfl rfl
         (.paren ['\n', ' '] [' '] rfl rfl
           (.chain (.atom AB.b)
@@ -141,10 +142,11 @@ theorem exRenders₂ : Renders exAtoms true exSk exText₂ :=
         (.cons (o := .xor) [] "^^" [] rfl (by decide) rfl rfl (.atom AB.b) (.nil _))))
     rfl
 
-/-- no space AFTER word operators (`nota`, `and(`, `xorb`), mixed aliases, CR LF -/
-theorem exRenders₃ : Renders exAtoms true exSk exText₃ :=
+/-- no space AFTER word operators (`nota`, `and(`, `xorb`), mixed aliases, CR LF; `nota` is
+`not a` because the scheme has no name `nota` (`glueOk`, decided) -/
+theorem exRenders₃ : Renders exEnv exAtoms true exSk exText₃ :=
   Renders.cast
-    (.chain (.not "not" [] (by decide) rfl (.atom AB.a))
+    (.chain (.not "not" [] (by decide) rfl (by decide) (.atom AB.a))
       (.cons (o := .and) [' ', ' '] "and" [] rfl (by decide) rfl rfl
         (.paren [' '] [] rfl rfl
           (.chain (.atom AB.b)
@@ -161,7 +163,7 @@ def exSk8 : Sk AB :=
 
 def exText8 : Input := "a or b && a and b or a ^^ b and a || b".toList
 
-theorem exRenders8 : Renders exAtoms false exSk8 exText8 :=
+theorem exRenders8 : Renders exEnv exAtoms false exSk8 exText8 :=
   Renders.cast
     (.chain (.atom AB.a)
       (.cons (o := .or) [' '] "or" [' '] rfl (by decide) rfl rfl (.atom AB.b)
